@@ -125,11 +125,21 @@ class Mon(CountingGhost):
                 if r.ev[0] == "open":
                     pass    # the replay of an open depends on whether other adds were committed: compared through rows only
                 ids = list(w.issued_ids) + list(w2.issued_ids)
-                s1 = rename_ids(json.dumps({"answer": ans1, "rows": {t: sorted(json_key(x) for x in xs) for t, xs in r.after.items()}},
-                                           sort_keys=True), ids)
-                s2 = rename_ids(json.dumps({"answer": ans2, "rows": {t: sorted(json_key(x) for x in xs)
-                                                                    for t, xs in w2.channel_rows(fresh=True).items()}},
-                                           sort_keys=True), ids)
+
+                def rowview(rows):
+                    # a close re-sent on a fresh connection goes through open-then-close and may refresh the
+                    # activity stamp, which the original (stateful) close does not touch: not part of "the same state"
+                    out = {}
+                    for t, xs in rows.items():
+                        ys = []
+                        for x in xs:
+                            if t == "mailboxes" and resend[0] == "close":
+                                x = dict(x, updated=None)
+                            ys.append(json_key(x))
+                        out[t] = sorted(ys)
+                    return out
+                s1 = rename_ids(json.dumps({"answer": ans1, "rows": rowview(r.after)}, sort_keys=True), ids)
+                s2 = rename_ids(json.dumps({"answer": ans2, "rows": rowview(w2.channel_rows(fresh=True))}, sort_keys=True), ids)
                 if last.exc is not None:
                     out.append(self.V("resent-command-failed-after-crash",
                                       {"case": case, "resent": list(resend), "exc": last.exc}, dict(sig, exc=last.exc[0])))
